@@ -1,14 +1,17 @@
 /-
 C05 — property theorems over the model `ErrCtx` (NV/C05/Model.lean).
 
-What is proved here is about the recovery primitives on EVERY machine state that extends the state at the save
-point (value stack and control stack grown on top of it, by any number of frames of any kind and any slots): that
-is the shape of every state an evaluation can be in when an error is raised.  The remaining step "every op tree
-keeps the state an extension of the save point" is stated as `ExecKeepsExtension` (not proved in Lean; it is
-checked by the correspondence run on every generated program and every fault position, see notes/C05.md).
+First part: the recovery primitives on EVERY machine state that extends the state at the save point (value stack and
+control stack grown on top of it, by any number of frames of any kind and any slots).
+Second part ("unconditional corollaries"): the core induction of NV/C05/Exec.lean shows that every op tree keeps the
+machine state an extension of its start state, so the first part applies to every program of the model, every
+nesting depth and every position of the injected fault: `exec_keeps_extension`, `top_restores`,
+`catch_yields_message_exec`, `guards_reset_first_level`.
 -/
 import NV.C05.Model
 import NV.C05.Lemmas
+import NV.C05.Exec
+import NV.C05.Spec
 
 namespace NV.C05
 
@@ -75,7 +78,7 @@ theorem catch_yields_message (s m : M) (dv : List Slot) (dc : List Frame) (link 
   refine ⟨{ popContext link { pushVals 1 m6 with lastCatch := m6.catchValue, catchValue := .num 1 } with vs := m6.vs }, ?_, ?_, ?_, ?_, ?_, ?_⟩
   · have hlim' : m6.errState &&& limitBits = 0 := by rw [h12]; exact hlim
     have h1' : restoreContext (ctxOf s) m = .ok m6 := h1
-    simp [catchFinish, h1', pushVals, popContext, hlim']
+    simp [catchFinish, afterCatch, h1', pushVals, popContext, hlim']
   · simp [popContext, h11]
   · simp [popContext]
   · simp [popContext, h2]
@@ -126,7 +129,8 @@ theorem context_chain_restored_catch (econ : Ctx) (link : List Ctx) (r : Res) (m
     simp only [catchFinish] at h
     split at h
     · cases h
-    · split at h
+    · simp only [afterCatch] at h
+      split at h
       · cases h
       · cases h; exact ⟨rfl, rfl⟩
   | err m5 =>
@@ -134,7 +138,8 @@ theorem context_chain_restored_catch (econ : Ctx) (link : List Ctx) (r : Res) (m
     split at h
     · split at h
       · exact absurd h (raise_not_ok _ _ _)
-      · split at h
+      · simp only [afterCatch] at h
+        split at h
         · cases h
         · cases h; exact ⟨rfl, rfl⟩
     · rename_i hne
@@ -193,15 +198,184 @@ theorem install_atomic (site : InstallSite) (hs : site.beforeLastError = false) 
       execOp (.install site true) m = raise site.failMsg m1 := by
   intro m1 h1 h2
   unfold execOp
-  simp [h1, h2, hs]
+  simp [h1, h2, hs, execCore]
 
-/-- The remaining obligation, NOT proved in Lean (kept as a statement): every op tree, from every state and for every
-    position of the fault, ends either normally with both stacks and the chain as they were, or with an error in a
-    state that extends the start state with the chain as it was. -/
-def ExecKeepsExtension : Prop :=
-  ∀ (p : Prog) (m : M), match exec p m with
+/-! ### unconditional corollaries of the core induction (`NV/C05/Exec.lean`) -/
+
+/-- **The core induction.**  Every op tree (calls of every kind, callbacks, temporaries, handler slots, nested catch
+    and safe_apply, load/destruct hooks, raises, throws and the injected fault at any position), from every machine
+    state: it ends normally with both stacks and the chain as they were, or with an error in a state that EXTENDS the
+    start state with the chain as it was; it crashes only when no error context exists at all. -/
+theorem exec_keeps_extension (p : Prog) (m : M) :
+    match exec p m with
     | .ok m' => m'.vs = m.vs ∧ m'.cs = m.cs ∧ m'.ctxs = m.ctxs
-    | .err m' => (∃ dv dc, Extends m m' dv dc) ∧ m'.ctxs = m.ctxs ∧ m'.loadDepth = 0 ∧ m'.restrictDestruct = 0
-    | .crash _ _ => True
+    | .err m' => (∃ dv dc, Extends m m' dv dc) ∧ m'.ctxs = m.ctxs
+    | .crash _ _ => m.ctxs = [] := by
+  have h := exec_good p m
+  cases hr : exec p m with
+  | ok m' => rw [hr] at h; exact ⟨h.vs, h.cs, h.ctxs⟩
+  | err m' =>
+    rw [hr] at h
+    obtain ⟨dv, hv⟩ := h.vs
+    obtain ⟨dc, hc⟩ := h.cs
+    exact ⟨⟨dv, dc, ⟨hv, hc⟩⟩, h.ctxs⟩
+  | crash w m' => rw [hr] at h; exact h
+
+/-- **guards_reset, first level.**  Whatever `error_handler` goes through — mudlib handler called or not, completed
+    or itself faulted — it never returns, and the error is delivered with `num_objects_this_thread = 0` and
+    `restrict_destruct = NULL` in a state extending the state of the raise. -/
+theorem guards_reset_first_level (msg : String) (m : M) :
+    match raise msg m with
+    | .ok _ => False
+    | .err m' => m'.loadDepth = 0 ∧ m'.restrictDestruct = 0 ∧ m'.ctxs = m.ctxs
+    | .crash _ _ => m.ctxs = [] := by
+  have h := raise_rspec msg (Same.rfl' m).toExt
+  cases hr : raise msg m with
+  | ok m' => rw [hr] at h; exact h
+  | err m' => rw [hr] at h; exact ⟨h.2.1, h.2.2, h.1.ctxs⟩
+  | crash w m' => rw [hr] at h; exact h
+
+theorem popStack_r {m m' : M} (h : popStack m = some m') : m'.r = m.r ∧ m'.cg = m.cg := by
+  unfold popStack at h
+  split at h
+  · cases h
+  · cases h; exact ⟨rfl, rfl⟩
+  · cases h; exact ⟨rfl, rfl⟩
+
+theorem popN_r : ∀ (n : Nat) (m m' : M), popN n m = some m' → m'.r = m.r ∧ m'.cg = m.cg
+  | 0, m, m', h => by simp only [popN] at h; cases h; exact ⟨rfl, rfl⟩
+  | n + 1, m, m', h => by
+    simp only [popN] at h
+    split at h
+    · cases h
+    · rename_i m1 h1
+      have a := popStack_r h1
+      have b := popN_r n m1 m' h
+      exact ⟨b.1.trans a.1, b.2.trans a.2⟩
+
+/-- **restore_is_inverse / context_chain_restored, unconditional, driver level.**  For EVERY program `p`, every
+    object, every fault position `k` and every state `m0` in which `save_context` succeeds: the driver-level
+    evaluation (save_context; apply; recovery by restore_context after a longjmp; pop_context) never crashes and ends
+    with the value stack, the control stack, the error-context chain and ALL registers of `m0`; when the evaluation
+    failed, command_giver is that of `m0` as well. -/
+theorem top_restores (ob : Val) (p : Prog) (k : Nat) (m0 m1 : M) (econ : Ctx)
+    (hs : saveContext m0 = some (econ, m1)) :
+    ∃ m', topFinish econ m0.ctxs (topBody ob p { m1 with fault := k }) = .ok m' ∧
+      m'.vs = m0.vs ∧ m'.cs = m0.cs ∧ m'.ctxs = m0.ctxs ∧ m'.r = m0.r ∧
+      ((∃ me, topBody ob p { m1 with fault := k } = .err me) → m'.cg = m0.cg) := by
+  obtain ⟨he, h1v, h1c, h1x, h1g⟩ := saveContext_spec hs
+  subst he
+  let mk : M := { m1 with fault := k }
+  let m2 : M := enterCall (.other ob) 0 mk
+  have hm2v : m2.vs = m0.vs := h1v
+  have hm2c : m2.cs = ⟨.function, m1.r⟩ :: m0.cs := by show _ :: m1.cs = _; rw [h1c]
+  have hm2x : m2.ctxs = _ :: m0.ctxs := h1x
+  have hr1 : m1.r = m0.r := by
+    simp only [saveContext] at hs
+    split at hs
+    · cases hs
+    · cases hs; rfl
+  have hb : Good m2 (thenTick (exec p m2)) := thenTick_good (exec_good p m2)
+  show ∃ m', topFinish _ m0.ctxs (callFinish (.other ob) 0 (thenTick (exec p m2))) = .ok m' ∧ _
+  cases hr : thenTick (exec p m2) with
+  | ok m4 =>
+    rw [hr] at hb
+    obtain ⟨m1', hp, h1v', h1c', h1x'⟩ := popN_exact (n := 0) (m := m4) (dv0 := []) (rest := m0.vs)
+      (by simp [hb.vs, hm2v]) rfl
+    have hp0 : popN 0 m4 = some m4 := rfl
+    obtain ⟨m3, hp3, h3c, h3v, h3x⟩ := popFrame_cons (m := pushVals 1 m4) (f := ⟨.function, m1.r⟩) (rest := m0.cs)
+      (by show m4.cs = _; rw [hb.cs, hm2c])
+    have h3r : m3.r = m1.r := by
+      unfold popFrame at hp3
+      have : (pushVals 1 m4).cs = ⟨.function, m1.r⟩ :: m0.cs := by show m4.cs = _; rw [hb.cs, hm2c]
+      rw [this] at hp3; cases hp3; rfl
+    obtain ⟨m6, hp6, h6v, h6c, h6x⟩ := popN_exact (n := 1) (m := m3) (dv0 := [Slot.val]) (rest := m0.vs)
+      (by rw [h3v]; show List.replicate 1 Slot.val ++ m4.vs = _; rw [hb.vs, hm2v]; rfl) rfl
+    have h6r := popN_r 1 m3 m6 hp6
+    have hne : (framesOf (.other ob) == 2) = false := rfl
+    refine ⟨popContext m0.ctxs m6, ?_, h6v, h6c.trans h3c, rfl, h6r.1.trans (h3r.trans hr1), ?_⟩
+    · simp only [callFinish, leaveCall, hp0, hp3, hne, Bool.false_eq_true, ↓reduceIte, hp6, topFinish]
+    · rintro ⟨me, hme⟩
+      have hme' : callFinish (.other ob) 0 (thenTick (exec p m2)) = .err me := hme
+      rw [hr] at hme'
+      simp only [callFinish, leaveCall, hp0, hp3, hne, Bool.false_eq_true, ↓reduceIte, hp6] at hme'
+      cases hme'
+  | err m4 =>
+    rw [hr] at hb
+    obtain ⟨dv, hdv⟩ := hb.vs
+    obtain ⟨dc, hdc⟩ := hb.cs
+    obtain ⟨m5, h1, h2, h3, h4, _, _, _, h8, _⟩ := restoreContext_ext m4 dv m0.vs (dc ++ [⟨.function, m1.r⟩]) m0.cs m0.cg
+      (by rw [hdv, hm2v]) (by rw [hdc, hm2c]; simp)
+    have hr5 : m5.r = m1.r := h8 ⟨.function, m1.r⟩ (by simp)
+    refine ⟨popContext m0.ctxs m5, ?_, h2, h3, rfl, hr5.trans hr1, fun _ => h4⟩
+    simp only [callFinish, topFinish, h1]
+  | crash w m4 =>
+    rw [hr] at hb
+    have : m2.ctxs = [] := hb
+    rw [hm2x] at this; cases this
+
+/-- **catch_yields_message, unconditional.**  For EVERY body: when the body of a catch (including its F_END_CATCH)
+    ends with an error that is not a limit error, the catch completes with the raised message / thrown value, and both
+    stacks and the chain are those of the catch point — no hypothesis about the state of the error is needed any more. -/
+theorem catch_yields_message_exec (body : Prog) (m m1 m5 : M) (econ : Ctx)
+    (hs : saveContext m = some (econ, m1))
+    (hb : thenTick (exec body { pushFrame .catch_ m1 with catchValue := .num 1 }) = .err m5)
+    (hlim : m5.errState &&& limitBits = 0) :
+    ∃ m', execCore (.catch_ body) m = .ok m' ∧ m'.lastCatch = m5.catchValue ∧
+      m'.vs = m.vs ∧ m'.cs = m.cs ∧ m'.ctxs = m.ctxs ∧ m'.cg = m.cg := by
+  obtain ⟨he, h1v, h1c, h1x, h1g⟩ := saveContext_spec hs
+  have hg := thenTick_good (exec_good body { pushFrame .catch_ m1 with catchValue := .num 1 })
+  rw [hb] at hg
+  obtain ⟨dv, hdv⟩ := hg.vs
+  obtain ⟨dc, hdc⟩ := hg.cs
+  have hext : Extends m m5 dv (dc ++ [⟨.catch_, m1.r⟩]) :=
+    ⟨by rw [hdv]; show _ ++ m1.vs = _; rw [h1v], by rw [hdc]; show _ ++ (_ :: m1.cs) = _; rw [h1c]; simp⟩
+  obtain ⟨m', h1, h2, h3, h4, h5, h6⟩ := catch_yields_message m m5 dv _ m.ctxs hext hlim
+  refine ⟨m', ?_, h2, h4, h5, h3, h6⟩
+  simp only [execCore, hs, hb]
+  rw [he]; exact h1
+
+/-! ### top theorem: the model satisfies the oracle -/
+
+/-- the snapshot the harness prints, as data -/
+def obsOf (m : M) : Obs :=
+  { sp := m.vs.length, csp := m.cs.length, ctx := m.ctxs.length, cg := m.cg, co := m.r.co, po := m.r.prevOb,
+    prog := m.r.prog, ct := m.r.callerType, fp := m.r.fp, pc := m.r.pc, fio := m.r.fio, vio := m.r.vio }
+
+def isErr : Res → Bool
+  | .err _ => true
+  | _ => false
+
+/-- one driver-level evaluation of the model, as the oracle sees it -/
+def observeTop (ob : Val) (p : Prog) (k : Nat) (m0 : M) : TopObs :=
+  match saveContext m0 with
+  | none => { before := obsOf m0, after := obsOf m0, failed := false, crashed := false }   -- "too deep": nothing ran
+  | some (econ, m1) =>
+    let r := topBody ob p { m1 with fault := k }
+    match topFinish econ m0.ctxs r with
+    | .ok m' => { before := obsOf m0, after := obsOf m', failed := isErr r, crashed := false }
+    | .err m' => { before := obsOf m0, after := obsOf m', failed := true, crashed := true }
+    | .crash _ m' => { before := obsOf m0, after := obsOf m', failed := true, crashed := true }
+
+/-- **model_satisfies_spec.**  For every program, object, fault position and start state, the register clauses of the
+    specification oracle find nothing on the model's driver-level evaluation.  (The string-level judge applied to
+    implementation traces compares exactly these fields, parsed from the snapshot text.) -/
+theorem model_satisfies_spec (ob : Val) (p : Prog) (k : Nat) (m0 : M) : judgeObs (observeTop ob p k m0) = [] := by
+  unfold observeTop
+  cases hs : saveContext m0 with
+  | none => simp [judgeObs]
+  | some em =>
+    obtain ⟨econ, m1⟩ := em
+    obtain ⟨m', h1, hv, hc, hx, hr, hcg⟩ := top_restores ob p k m0 m1 econ hs
+    simp only [h1]
+    have hcg' : isErr (topBody ob p { m1 with fault := k }) = true → m'.cg = m0.cg := by
+      intro he
+      cases hb : topBody ob p { m1 with fault := k } with
+      | err me => exact hcg ⟨me, hb⟩
+      | ok _ => rw [hb] at he; cases he
+      | crash _ _ => rw [hb] at he; cases he
+    cases he : isErr (topBody ob p { m1 with fault := k }) with
+    | false => simp [judgeObs, obsOf, hv, hc, hx, hr]
+    | true => simp [judgeObs, obsOf, hv, hc, hx, hr, hcg' he]
 
 end NV.C05
